@@ -258,6 +258,13 @@ func (e *evaluator) eval(op string, args []string) (res string, val starlark.Val
 		}
 		return render(v), v
 	}
+	if op == "litexpr" {
+		v, err := starlark.EvalOptions(&syntax.FileOptions{}, e.th, "litexpr", args[0][1:], nil)
+		if err != nil {
+			return "E", nil
+		}
+		return render(v), v
+	}
 	if op == "lit" {
 		v, err := starlark.EvalOptions(&syntax.FileOptions{}, e.th, "lit", args[0][1:], nil)
 		if err != nil {
